@@ -255,4 +255,45 @@ def run(ctx) -> None:
             judge(ctx, f"location-grid-{lay}", "qartod.location_test", {"lon": lo, "lat": la, "bbox": [9, 49, 13, 51]},
                   [a and b for a, b in zip(ma, mb)], lambda k: ma[k] or mb[k], lambda k: False,
                   {"placement(0 none,1 first,2 second,3 both)": list(pl), "marker": "nan", "layout(lon,lat)": lay})
+    # ---- valid_range_test on plain lists / tuples whose type has to be worked out by the function (no dtype argument):
+    #      python datetimes, datetime64 scalars, ISO strings, epoch numbers -- a missing entry is MISSING in every form
+    import datetime as _dt  # noqa: PLC0415
+
+    t00 = _dt.datetime(2021, 3, 1, 0, 0, 0)
+    for n in range(1, 6):
+        for pl in itertools.product((False, True), repeat=n):
+            i += 1
+            if not ctx.mine(i):
+                continue
+            miss = list(pl)
+            secs = [2 * k for k in range(n)]
+            forms = {
+                "list-of-datetimes": ([None if m else t00 + _dt.timedelta(seconds=s_) for s_, m in zip(secs, miss)],
+                                      (t00 + _dt.timedelta(seconds=2), t00 + _dt.timedelta(seconds=6))),
+                "list-of-datetime64": ([np.datetime64("NaT") if m else np.datetime64(t00 + _dt.timedelta(seconds=s_)) for s_, m in zip(secs, miss)],
+                                       (np.datetime64(t00 + _dt.timedelta(seconds=2)), np.datetime64(t00 + _dt.timedelta(seconds=6)))),
+                "list-of-iso-strings": ([None if m else (t00 + _dt.timedelta(seconds=s_)).isoformat() for s_, m in zip(secs, miss)],
+                                        ((t00 + _dt.timedelta(seconds=2)).isoformat(), (t00 + _dt.timedelta(seconds=6)).isoformat())),
+                "tuple-of-epoch-numbers": (tuple(float("nan") if m else float(s_) for s_, m in zip(secs, miss)), (2.0, 6.0)),
+                "list-of-numbers-with-None": ([None if m else float(s_) for s_, m in zip(secs, miss)], (2.0, 6.0)),
+            }
+            for fname_, (inp_, span_) in forms.items():
+                for extra in ({}, {"start_inclusive": False, "end_inclusive": True}):
+                    judge(ctx, f"valid_range|{fname_}", "axds.valid_range_test", {"inp": inp_, "valid_span": span_, **extra}, miss,
+                          lambda k: False, lambda k: False, {"missing": [int(m) for m in miss], "marker": fname_, "seconds": secs, **extra})
+                    ctx.count("c02.valid_range_guessed_type_calls")
+    # ---- a platform that does not move: two fixes at the very same (fully recorded) position, at latitudes all over the
+    #      globe -- nothing is missing, so nothing is MISSING (a distance formula that loses its footing at zero is)
+    for k in range(ctx.shard, 9000, 11 * ctx.nshards):
+        la = 0.01 * k * (1 if k % 2 else -1)
+        lo_ = -179.0 + (k % 358)
+        lon_, lat_ = [lo_, lo_, lo_ + 0.01, lo_ + 0.01], [la, la, la, la]
+        none4 = [False] * 4
+        judge(ctx, "speed|stationary-fixes", "argo.speed_test",
+              {"lon": np.array(lon_), "lat": np.array(lat_), "tinp": T(4), "suspect_threshold": 1, "fail_threshold": 1000}, none4,
+              lambda k_: False, lambda k_: k_ == 0, {"missing": [0] * 4, "marker": "none", "lon": lon_, "lat": lat_})
+        judge(ctx, "location|stationary-fixes", "qartod.location_test",
+              {"lon": np.array(lon_), "lat": np.array(lat_), "range_max": 5000.0}, none4,
+              lambda k_: False, lambda k_: False, {"missing": [0] * 4, "marker": "none", "lon": lon_, "lat": lat_})
+        ctx.count("c02.stationary_fix_calls", 2)
     _ = core
